@@ -38,7 +38,7 @@ SPEC = dict(
         "Go's map iteration order inside Ensure is an explicit argument of the model's Ensure event; the tie compares only at the Ensure fixpoint",
         "the closure sets R (upper) and R' (lower) used by the monitor are computed by bounded iteration (2n+2 rounds) in coq/models/TaskEngine.v; they are part of the monitor, not of a theorem",
     ],
-    assumptions=["PARTIAL: proved for all graphs and event lists: undo order (fresh undo starts see all dependents ready), the abort status mapping, termination of the abort recursion within the model's fuel bounds (C01_abort_fuel, so no fuel hypothesis anywhere), the failing task ends in Error, a settled change with a failed task reports Error; for closed acyclic graphs and tame histories (user aborts on unready changes only, do handlers that Wait wait to become Done): no task is stranded (C01_no_deadlock: with no tomb, no task in Wait and no task scheduled for later, the Ensure loop body fires for some task unless all are ready; C01_no_deadlock_pass: a whole pass over any order visiting every task strictly raises the progress measure, so it changes the state). NOT proved, only monitored on the observed histories: which tasks an abort reaches (closure sandwich R' <= aborted <= R and the exemption), settling (liveness), the outcome table of the settled state.",
+    assumptions=["PARTIAL: proved for all graphs and event lists: undo order (fresh undo starts see all dependents ready), the abort status mapping, termination of the abort recursion within the model's fuel bounds (C01_abort_fuel, so no fuel hypothesis anywhere), the failing task ends in Error, a settled change with a failed task reports Error; for closed acyclic graphs and tame histories (user aborts on unready changes only, do handlers that Wait wait to become Done): no task is stranded (C01_no_deadlock: with no tomb, no task in Wait and no task scheduled for later, the Ensure loop body fires for some task unless all are ready; C01_no_deadlock_pass: a whole pass over any order visiting every task strictly raises the progress measure, so it changes the state). Also proved: an abort touches nothing outside the upper closure R (every state, every lane list); only started work is undone; a settled state has no tomb and reports Error iff some handler returned an error. Both halves of the closure sandwich are proved (nothing outside R is touched; everything in R' is no longer live). Settling is proved (C01_settles_error: bounded rounds of Ensure + finishing all handlers, no Wait / delayed retry outstanding). The abort set is characterised exactly when abortLanes does not nest (C01_abort_exact_*). NOT proved, only monitored: the abort set between R' and R when abortLanes nests (C01_sandwich_bounds_not_tight: neither bound is tight).",
                  "handlers return nil, an error, *Retry or *Wait and do not change task statuses themselves; a do handler waits to become Done, an undo handler to become Undone (the settle monitor skips histories where the driver crossed these on purpose)",
                  "graphs are closed (wait edges point to tasks of the change) and acyclic (edges go along a topological order): what the generator produces and CheckTaskDependencies enforces in snapd"],
 )
